@@ -40,6 +40,28 @@ CHECKS = {
         note="Comment slot of typedefs, typecast operator label and class-typed setter are not judged (see DESIGN 9).",
         technique="bounded exhaustive program enumeration on the real tool, generator ground truth + g++ oracle",
     ),
+    "C06": dict(
+        level="model_checking",
+        text="Exhaustive enumeration of the declarator grammar (base types x modifier strings up to depth 2/3 with both cv "
+             "placements) x 7 name-lookup contexts x 4 declaration roles, plus class heads and the parser-inc corpus filtered "
+             "by g++; every type/prototype text interrogate prints (database names and prototypes, -oc wrapper prototypes, "
+             "parse_file output) is checked by g++ static_assert(is_same<decltype(entity), PRINTED>) against the original header.",
+        design="4/C06",
+        note="Open known findings keyed by alphabet symbol + exact wrong text: volatile dropped, pointer-to-member printed as "
+             "pointer, parenthesised declarators after a type name, elaborated enum parameters (grammar-level, not small fixes).",
+        technique="bounded exhaustive program enumeration on the real tools, g++ type-identity oracle",
+    ),
+    "C10": dict(
+        level="model_checking",
+        text="Exhaustive enumeration of class shapes (ctor set x destructor form x data members x virtuals; 5040 level-0 "
+             "classes) and hierarchies built breadth-first to depth 2 (thorough 3) over one representative per distinct trait "
+             "vector; interrogate's traits (parse_file -p) and the implicit constructors/destructor in the database are "
+             "compared with g++ -std=c++20 type traits and well-formedness of new T()/new T(const T&)/delete p.",
+        design="4/C10",
+        note="Where std::is_*_constructible and the new-expression differ only by destructor access either is accepted "
+             "(the property does not decide); classes g++ itself rejects are filtered and counted.",
+        technique="bounded exhaustive program enumeration on the real tools, g++ type-trait oracle",
+    ),
     "C14": dict(
         level="model_checking",
         text="Deviation-bounded enumeration of environment answers (allocator address order asc/desc and every permutation "
